@@ -6,6 +6,7 @@ import header_rules
 import pcw_rules
 import blob_rules
 import page_rules
+import crc_rules
 
 TECHNIQUE = "independent tables instead of an independent decoder: binary layout tables and XML vocabulary written from the standard are compared with the tables extracted from the writer's MIR (byte ranges, widths, endianness, ids, length conventions; parent/element/E57-type triples of the maximal XML skeleton); skeleton well-formedness by tokenisation; header/section patch dataflow; page sealing rules"
 EXPLANATION = (
@@ -16,7 +17,7 @@ EXPLANATION = (
     "with the E57 default namespace and one xmlns per extension; that the file header is patched last with "
     "physical_position/len/physical_size values; that data_offset and blob offsets come from physical_position, section and "
     "packet lengths are accounted with the value written into the headers, every packet and blob is followed by align; and "
-    "that every page written to the device is sealed with the big-endian CRC of its payload. The writer side of the metadata maps (every descriptor field serialised under its own tag from the field of that name, C04-R1/R2). Not decided: decoding the "
+    "that every page written to the device is sealed with the big-endian CRC of its payload. The built-in checksum is the CRC-32C shape of C07-R5 over the whole payload slice. The writer side of the metadata maps (every descriptor field serialised under its own tag from the field of that name, C04-R1/R2). Not decided: decoding the "
     "file with an independent implementation and equality of the decoded content (run-time).")
 
 
@@ -49,4 +50,6 @@ def run(ctx):
         page_rules.flush_protocol(ctx, prog, "R6")
         page_rules.constants_agree(ctx, prog, "R6")
         page_rules.read_current_page_shape(ctx, prog, "R6")
+        if cfg == "lib":
+            crc_rules.crc32c_shape(ctx, prog, "R6")
     ctx.cfg = None
